@@ -133,6 +133,36 @@ def offset_class(n, L):
     return "middle"
 
 
+def structural_offsets(B, cap=60):
+    """cut points at which a reader is most likely to be special: right after a byte that equals the pickle STOP
+    opcode ('.'), the end of every top-level pickle in the file and every FRAME boundary (and 1-2 bytes past)."""
+    import io
+    import pickletools
+    L = len(B)
+    pts = set()
+    pos = 0
+    try:
+        while pos < L and len(pts) < 4 * cap:
+            stream = io.BytesIO(B[pos:])
+            end = None
+            for op, arg, p_ in pickletools.genops(stream):
+                if op.name == "FRAME":
+                    pts.update({pos + p_, pos + p_ + 9})
+                if op.name == "STOP":
+                    end = pos + p_ + 1
+            if end is None:
+                break
+            pts.update({end, end + 1, end + 2})
+            pos = end
+    except Exception:
+        pass
+    dots = [i + 1 for i in range(L) if B[i] == 0x2E]
+    step = max(1, len(dots) // cap)
+    for i in dots[::step]:
+        pts.update({i, i + 1})
+    return {x for x in pts if 0 <= x < L}
+
+
 def recover_and_compare(ctx, folder, sig_f, what, cls, case, calls=2):
     """the calls after the fault: must not raise, must equal the fresh compile."""
     from pymoca.backends.casadi import api
@@ -190,56 +220,11 @@ def one_model(ctx, rng, k):
         L = len(B)
         base = {"text": text, "cache_len": L}
         if ctx.quick():
-            offs = sorted({0, 1, 2, 15, 16, L // 4, L // 2, (3 * L) // 4, L - 2, L - 1} | {rng.randrange(L) for _ in range(10)})
+            offs = sorted({0, 1, 2, 15, 16, L // 4, L // 2, (3 * L) // 4, L - 2, L - 1} | {rng.randrange(L) for _ in range(10)}
+                          | structural_offsets(B))
         else:
             offs = list(range(0, L)) if k % 4 == 0 else sorted({0, 1, L // 2, L - 1} | {rng.randrange(L) for _ in range(60)})
-        # (a) crash inside save_model after n bytes
-        for n in offs:
-            if ctx.out_of_time():
-                break
-            clean_cache(folder)
-            case = dict(base, fault="crash-during-write", offset=n)
-            ctx.case({"t": text, "f": "crash", "n": n}, True, {"fault": "crash during cache write", "after_bytes": n, "cache_len": L} if ctx.cases < 1 else None)
-            with OpenPatch(folder, n) as op:
-                try:
-                    api.transfer_model(folder, "M", {"cache": True})
-                    crashed = False
-                except SimulatedCrash:
-                    crashed = True
-            if not crashed:
-                ctx.discard("crash-point-not-reached (the write goes elsewhere)")
-                if op.hits == 0:
-                    ctx.cover("cache-write-not-intercepted")
-            else:
-                ctx.monitor("crash_points_injected")
-            ctx.cover("crash-offset:" + offset_class(n, L))
-            left = [f_ for f_ in os.listdir(folder) if not f_.endswith(".mo")]
-            ctx.cover("files-left-after-crash:%d" % len(left))
-            if not recover_and_compare(ctx, folder, sig_f, "crash-during-write", offset_class(n, L), case):
-                return
-        # (c) damage of a complete file
-        damages = [("truncated", n) for n in offs] + [("garbage", 0), ("garbage-tail", 0), ("text", 0)]
-        for kind, n in damages:
-            if ctx.out_of_time():
-                break
-            clean_cache(folder)
-            if kind == "truncated":
-                data, cls = B[:n], offset_class(n, L)
-            elif kind == "garbage":
-                data, cls = safe_garbage(rng, min(L, 2000)), "random-bytes"
-            elif kind == "garbage-tail":
-                data, cls = B + bytes(rng.randrange(256) for _ in range(50)), "complete-plus-tail"
-            else:
-                data, cls = b"this is not a pickle\n" * 20, "text"
-            with REAL_OPEN(cache_path(folder), "wb") as f:
-                f.write(data)
-            os.utime(cache_path(folder), (1_600_000_000, 1_600_000_000))
-            ctx.monitor("truncations_injected")
-            ctx.cover("damage:%s:%s" % (kind, cls))
-            ctx.case({"t": text, "f": kind, "n": n}, True, None)
-            if not recover_and_compare(ctx, folder, sig_f, "damaged-file:" + kind, cls, dict(base, fault=kind, offset=n)):
-                return
-        # (d) reader / writer interleavings (threads)
+        # (d) reader / writer interleavings (threads) - first: cheap, and must not be starved by the offset sweeps below
         for n in ([0, L // 2, L - 1] if ctx.quick() else [0, 1, L // 3, L // 2, L - 1]):
             if ctx.out_of_time():
                 break
@@ -286,6 +271,52 @@ def one_model(ctx, rng, k):
                                   "writer paused after %d of %d bytes: %s got a model differing at %s" % (n, L, who, d), case)
                     return
             if not recover_and_compare(ctx, folder, sig_f, "after-reader-writer", offset_class(n, L), case, calls=1):
+                return
+        # (a) crash inside save_model after n bytes
+        for n in offs:
+            if ctx.out_of_time():
+                break
+            clean_cache(folder)
+            case = dict(base, fault="crash-during-write", offset=n)
+            ctx.case({"t": text, "f": "crash", "n": n}, True, {"fault": "crash during cache write", "after_bytes": n, "cache_len": L} if ctx.cases < 1 else None)
+            with OpenPatch(folder, n) as op:
+                try:
+                    api.transfer_model(folder, "M", {"cache": True})
+                    crashed = False
+                except SimulatedCrash:
+                    crashed = True
+            if not crashed:
+                ctx.discard("crash-point-not-reached (the write goes elsewhere)")
+                if op.hits == 0:
+                    ctx.cover("cache-write-not-intercepted")
+            else:
+                ctx.monitor("crash_points_injected")
+            ctx.cover("crash-offset:" + offset_class(n, L))
+            left = [f_ for f_ in os.listdir(folder) if not f_.endswith(".mo")]
+            ctx.cover("files-left-after-crash:%d" % len(left))
+            if not recover_and_compare(ctx, folder, sig_f, "crash-during-write", offset_class(n, L), case):
+                return
+        # (c) damage of a complete file
+        damages = [("truncated", n) for n in offs] + [("garbage", 0), ("garbage-tail", 0), ("text", 0)]
+        for kind, n in damages:
+            if ctx.out_of_time():
+                break
+            clean_cache(folder)
+            if kind == "truncated":
+                data, cls = B[:n], offset_class(n, L)
+            elif kind == "garbage":
+                data, cls = safe_garbage(rng, min(L, 2000)), "random-bytes"
+            elif kind == "garbage-tail":
+                data, cls = B + bytes(rng.randrange(256) for _ in range(50)), "complete-plus-tail"
+            else:
+                data, cls = b"this is not a pickle\n" * 20, "text"
+            with REAL_OPEN(cache_path(folder), "wb") as f:
+                f.write(data)
+            os.utime(cache_path(folder), (1_600_000_000, 1_600_000_000))
+            ctx.monitor("truncations_injected")
+            ctx.cover("damage:%s:%s" % (kind, cls))
+            ctx.case({"t": text, "f": kind, "n": n}, True, None)
+            if not recover_and_compare(ctx, folder, sig_f, "damaged-file:" + kind, cls, dict(base, fault=kind, offset=n)):
                 return
     finally:
         if real_compile is not None:
